@@ -106,6 +106,9 @@ func parseRoute(node *treeNode, path string, method string, info *RouteInfo) (pa
 //	`/foo/bar/` will be matched by `/foo/bar/:param` or `/foo/bar/*`
 //	`/`         will be matched by `/` first and then `/:param` or `/*`
 func findRoute(node *treeNode, path string, method string, params *Params) (info *RouteInfo) {
+	if path == "" {
+		path = "/" // http.Request.URL.Path may be empty, e.g. for CONNECT or `OPTIONS *` requests
+	}
 	var length, left, right int = len(path), 0, 0
 	if length == 1 {
 		if n := node.methodNodeOrNil(method); n != nil {
